@@ -176,6 +176,32 @@ impl CProg {
         }
         Ok(CRoots { cmr: self.root_cmr(), amr, ihr: midstate_bytes(&ihr), cost, cells, frames })
     }
+    /// Run the C Bit Machine on an expression of type 1 -> B and return the error code and, on
+    /// success, the `out_bits` output bits.
+    pub fn eval_output(&mut self, env: Option<&CElementsTxEnv>, out_bits: usize) -> (i32, Vec<bool>) {
+        use simplicity_sys::c_jets::frame_ffi::{c_readBit, CFrameItem};
+        let envp = env.map(|e| e as *const _).unwrap_or(ptr::null());
+        let words = simplicity_sys::c_jets::uword_width(out_bits).max(1);
+        let mut buf: Vec<UWORD> = vec![0; words];
+        let code = unsafe { c_evalTCOExpression(CHECK_NONE, buf.as_mut_ptr(), ptr::null(), self.dag, self.type_dag, self.len, 0, ptr::null(), envp) };
+        let mut bits = vec![];
+        if code == 0 {
+            let mut frame = unsafe { CFrameItem::new_read(out_bits, buf.as_ptr()) };
+            for _ in 0..out_bits {
+                bits.push(unsafe { c_readBit(&mut frame) });
+            }
+        }
+        (code, bits)
+    }
+    /// bit size of the root's target type (valid after infer)
+    pub fn root_target_bits(&self) -> usize {
+        let (_, t) = self.types_of(self.len - 1);
+        self.ty(t).bit_size as usize
+    }
+    pub fn root_source_bits(&self) -> usize {
+        let (s, _) = self.types_of(self.len - 1);
+        self.ty(s).bit_size as usize
+    }
     /// Run the C Bit Machine on a 1->1 program. Returns the C error code (0 = success).
     pub fn eval(&mut self, flags: c_uchar, env: Option<&CElementsTxEnv>) -> i32 {
         let envp = env.map(|e| e as *const _).unwrap_or(ptr::null());
@@ -188,6 +214,15 @@ impl CProg {
 pub enum CVerdict {
     Accept(CRoots),
     Reject(i32, &'static str),
+}
+
+/// same as c_check but without the 1->1 requirement (expressions)
+pub fn c_check_expr(program: &[u8], witness: &[u8]) -> Result<CProg, (i32, &'static str)> {
+    let mut p = CProg::decode(program).map_err(|c| (c, "decode"))?;
+    p.infer().map_err(|c| (c, "infer"))?;
+    p.fill_witness(witness).map_err(|c| (c, "witness"))?;
+    p.analyse().map_err(|c| (c, "analyse"))?;
+    Ok(p)
 }
 
 /// decode, infer, fill witness, roots, cost, 1->1 - the stages RedeemNode::decode corresponds to.
